@@ -58,6 +58,7 @@ func (m *MuxBroker) Accept(id uint32) (net.Conn, error) {
 	p := m.getStream(id)
 	select {
 	case c = <-p.ch:
+		verifhook.Point("mux.accept.taking", id)
 		close(p.doneCh)
 		verifhook.Point("mux.accept.took", id)
 	case <-time.After(5 * time.Second):
